@@ -16,7 +16,7 @@ import c04
 from c04 import get_data, put_data, run_impl, eff_onesided, eff_nfft, clause_of, rel_close, ok_c, cmp_vec
 
 PID = 'C06'
-LEAN_TARGETS = ['Nitime.Props.C06']
+LEAN_TARGETS = ['Nitime.Props.C06', 'Nitime.Props.C06Hist']
 RULE = ('one PRNG state drives: estimator in {periodogram_csd, multi_taper_csd fixed/adaptive, welch(get_spectra) raw and completed} x '
         '2..6 channels (pcsd/mtcsd also 1 channel and an extra leading dimension) x real/complex x n of both parities x NFFT x sides x Fs; '
         'every case is also re-run with a channel dropped, a channel added, channels permuted and (where accepted) leading dimensions flattened; '
@@ -54,17 +54,62 @@ def single_channel(m, row):
     """the auto-density the corresponding single-channel estimator returns for this channel"""
     A = c04.tsa()
     if m['op'] == 'pcsd':
-        return np.asarray(A.periodogram(row, Fs=m['Fs'], N=m.get('NFFT'), sides=m['sides'])[1])
+        nkw = {} if m.get('normalize') is None else {'normalize': m['normalize']}
+        return np.asarray(A.periodogram(row, Fs=m['Fs'], N=m.get('NFFT'), sides=m['sides'], **nkw)[1])
     if m['op'] == 'mtcsd':
         return np.asarray(A.multi_taper_psd(row, Fs=m['Fs'], NW=m.get('NW'), BW=m.get('BW'), adaptive=m['adaptive'], jackknife=False,
                                             low_bias=m.get('low_bias', True), sides=m['sides'], NFFT=m.get('NFFT'))[1])
-    r = run_impl(put_data(dict(m, via=None), row))
+    r = run_impl(put_data(dict(m, via=None, hist=None, shared=None, twice=False), row))
     return np.real(np.asarray(r['W']))
+
+
+def judge_skhist(m, r):
+    """histories on ONE precomputed transform: every matrix handed out is what a fresh call returns (c04), Hermitian,
+    positive semidefinite, its diagonal real and equal to periodogram(s[i], Sk=Sk[i]) computed on a FRESH transform, and the
+    matrix of a subset / permutation Sk[idx] of the rows is the corresponding sub-matrix"""
+    bad = list(c04.judge_skhist(m, r))
+    A = c04.tsa()
+    s = get_data(m)
+    n = s.shape[-1]
+    rows = s.reshape(-1, n)
+    M = rows.shape[0]
+    tol = c04.tol_of(m, RT)
+    for idx, (c, out) in enumerate(zip(m['calls'], r['H'])):
+        if c[0] != 'c':
+            continue
+        C = np.asarray(out)
+        which = 'first' if idx == 0 else 'later'
+        scale = max(float(np.max(np.abs(C))), 1e-300)
+        if not rel_close(C, np.conj(np.transpose(C, (1, 0, 2))), tol):
+            bad.append(('%s-use-hermitian' % which, 'use %d: C[i,j] != conj(C[j,i])' % idx))
+        H = 0.5 * (C + np.conj(np.transpose(C, (1, 0, 2))))
+        ev = np.linalg.eigvalsh(np.transpose(H, (2, 0, 1)))
+        if ev.min() < -max(1e-10, tol) * scale:
+            bad.append(('%s-use-psd' % which, 'use %d: min eigenvalue %g (largest |entry| %g)' % (idx, ev.min(), scale)))
+        Skf = np.fft.fft(rows, n=m['Nsk'])
+        for i in range(M):
+            p = np.asarray(A.periodogram(rows[i], Fs=m['Fs'], Sk=Skf[i], sides=c[1], normalize=bool(c[2]))[1])
+            if not rel_close(C[i, i].real, p.reshape(-1), tol):
+                bad.append(('%s-use-diag-ne-psd' % which, 'use %d: diagonal of channel %d differs from periodogram(s[i], Sk=Sk[i]) (ratio %.6g)'
+                            % (idx, i, float(np.max(np.abs(C[i, i].real)) / max(float(np.max(np.abs(p))), 1e-300)))))
+                break
+    # a later call on a permutation / subset of the rows of the SAME transform object (fancy indexing: a copy)
+    if M >= 2 and m['calls'][0][0] == 'c':
+        c = m['calls'][0]
+        Sk = c04.make_sk(m).reshape(M, -1)
+        first = np.asarray(A.periodogram_csd(rows, Fs=m['Fs'], Sk=Sk, sides=c[1], normalize=bool(c[2]))[1])
+        perm = list(range(1, M)) + [0]
+        sub = np.asarray(A.periodogram_csd(rows[perm], Fs=m['Fs'], Sk=Sk[perm], sides=c[1], normalize=bool(c[2]))[1])
+        if not rel_close(sub, first[np.ix_(perm, perm)], tol):
+            bad.append(('later-use-permutation', 'periodogram_csd on the permuted rows Sk[perm] of a transform that was used before is not the permuted matrix'))
+    return bad
 
 
 def judge(m, r=None):
     if r is None:
         r = run_impl(m)
+    if m['op'] == 'skhist':
+        return judge_skhist(m, r)
     s = get_data(m)
     n = s.shape[-1]
     rows = s.reshape(-1, n)
@@ -72,16 +117,16 @@ def judge(m, r=None):
     C = matrix_of(m, r)
     bad = []
     scale = max(float(np.max(np.abs(C))), 1e-300)
-    lo = 1e-6 if m.get('adaptive') else RT
+    lo = c04.tol_of(m, 1e-6 if m.get('adaptive') else RT)
     if C.shape[:2] != (M, M):
         return [('shape', 'matrix shape %s for %d channels' % (C.shape, M))]
     # Hermitian
-    if not rel_close(C, np.conj(np.transpose(C, (1, 0, 2))), RT):
+    if not rel_close(C, np.conj(np.transpose(C, (1, 0, 2))), c04.tol_of(m, RT)):
         bad.append(('hermitian', 'C[i,j] != conj(C[j,i])'))
     # positive semidefinite
     H = 0.5 * (C + np.conj(np.transpose(C, (1, 0, 2))))
     ev = np.linalg.eigvalsh(np.transpose(H, (2, 0, 1)))
-    if ev.min() < -1e-10 * scale:
+    if ev.min() < -max(1e-10, c04.tol_of(m, 0.0)) * scale:
         bad.append(('psd', 'min eigenvalue %g (largest |entry| %g)' % (ev.min(), scale)))
     # diagonal: real, equal to the single-channel estimator
     d = np.array([C[i, i] for i in range(M)])
@@ -122,13 +167,14 @@ def judge(m, r=None):
         C5 = matrix_of(m, run_impl(put_data(dict(m), rows)))
         if not rel_close(C5, C, lo):
             bad.append(('flatten', 'result for the (a,b,n) array differs from the one for its (a*b,n) flattening'))
-    bad += c04.robustness(m, r)
+    if not (m.get('hist') or m.get('shared') or m.get('twice') or m.get('dtype')):
+        bad += c04.robustness(m, r)
     return bad
 
 
 def make_cases(m, r):
     cs = c04.make_cases(m, r, pid=PID)
-    if m['op'] == 'welch' and len(m['shape']) == 2 and m['shape'][0] > 1:
+    if m['op'] == 'welch' and len(m['shape']) == 2 and m['shape'][0] > 1 and not c04.tag_of(m):
         s = get_data(m)
         n = s.shape[-1]
         cplx = m.get('im') is not None
@@ -162,6 +208,8 @@ def gen_meta(rng, nr, tier, kind, i=0):
         m = {'op': kind, 'Fs': Fs, 'NFFT': c04.gen_nfft(rng, n, i), 'sides': ['default', 'onesided', 'twosided', 'default'][(i // 5) % 4]}
         if cplx and m['sides'] == 'onesided':
             m['sides'] = 'default'
+        if kind == 'pcsd' and (i // 2) % 6 in (3, 5):
+            m['normalize'] = (i // 2) % 6 == 5
         coherent = False
         if kind == 'mtcsd':
             m.update(adaptive=(i % 5) in (1, 3), low_bias=(i % 3) != 0)
@@ -171,6 +219,11 @@ def gen_meta(rng, nr, tier, kind, i=0):
             else:
                 m['NW'], m['BW'] = rng.choice([2, 2.5, 3, 4, None]), None
         m['via'] = [None, 'get_spectra', None, 'CoherenceAnalyzer'][(i // 4) % 4]
+        if kind == 'mtcsd' and (i // 4) % 5 == 4:
+            m['via'] = 'mtm-direct'          # tapered_spectra(precomputed tapers) + mtm_cross_spectrum for every pair, called directly
+            c04.to_mtm_direct(m)
+            if len(shape) == 3 or shape[0] > 4:
+                shape = (3, n)
         return put_data(m, c04.gen_signal(rng, nr, shape, cplx, i=i // 7, coherent=coherent))
     Ns = [8, 9, 12, 15, 16, 21] + ([32, 33] if big else [])
     N = Ns[i % len(Ns)]
@@ -186,7 +239,35 @@ def gen_meta(rng, nr, tier, kind, i=0):
     return put_data(m, c04.gen_signal(rng, nr, (M, n), cplx, i=i // 7))
 
 
-MIX = {'quick': [('pcsd', 110), ('mtcsd', 80), ('welch', 110)], 'thorough': [('pcsd', 600), ('mtcsd', 350), ('welch', 600)]}
+MIX = {'quick': [('pcsd', 110), ('mtcsd', 80), ('welch', 110), ('pcsd@dtype', 32), ('mtcsd@dtype', 24), ('welch@dtype', 24),
+                 ('h_sk', 50), ('h_mt', 16), ('h_call', 18)],
+       'thorough': [('pcsd', 600), ('mtcsd', 350), ('welch', 600), ('pcsd@dtype', 160), ('mtcsd@dtype', 96), ('welch@dtype', 120),
+                    ('h_sk', 250), ('h_mt', 64), ('h_call', 72)]}
+HIST_OPS = {'h_mt': ['mtcsd'], 'h_call': ['pcsd', 'mtcsd', 'welch']}
+
+
+def gen_any(rng, nr, tier, kind, i):
+    """the C06 generator, its typed variants (L1) and the history families of c04 restricted to the matrix estimators (L2/L6)"""
+    if '@dtype' in kind:
+        return c04.with_dtype(gen_meta(rng, nr, tier, kind.split('@')[0], i=i), c04.DTYPE_CYCLE[i % len(c04.DTYPE_CYCLE)])
+    if kind.startswith('h_'):
+        keep = c04.HIST_OPS
+        c04.HIST_OPS = HIST_OPS
+        try:
+            m = c04.gen_meta(rng, nr, tier, kind, i=i)
+        finally:
+            c04.HIST_OPS = keep
+        if kind == 'h_sk':
+            m['calls'][0][0] = 'c'
+            m['calls'][0] = m['calls'][0][:3]
+            if len(m['shape']) == 2 and m['shape'][0] == 1:
+                put_data(m, np.concatenate([get_data(m), get_data(m)[:, ::-1] * 0.5 + 0.25], axis=0))
+        if m.get('via') in ('get_spectra_bi', 'SpectralAnalyzer.cpsd'):
+            m['via'] = None          # the metamorphic runs of C06 change the number of channels
+        if m['op'] in ('pcsd', 'mtcsd', 'welch') and len(m['shape']) == 1:
+            put_data(m, np.stack([get_data(m), get_data(m)[::-1] * 0.5 + 0.25]))
+        return m
+    return gen_meta(rng, nr, tier, kind, i=i)
 _RES = {}
 SKIPPED = {}
 
@@ -200,9 +281,10 @@ def cases(rng, tier, seed):
     with warnings.catch_warnings(), contextlib.redirect_stdout(io.StringIO()):
         warnings.simplefilter('ignore')
         off = rng.randrange(10**4)
+        c04._HIST_N[0] = 0
         for kind, cnt in MIX[tier]:
             for i in range(cnt):
-                m = gen_meta(rng, nr, tier, kind, i=off + i)
+                m = gen_any(rng, nr, tier, kind, off + i)
                 try:
                     r = run_impl(m)
                 except Exception as e:
